@@ -1,11 +1,15 @@
 package rules
 
 import (
+	"go/token"
+	"go/types"
 	"regexp"
+	"sort"
 	"strings"
 
 	"golang.org/x/tools/go/ssa"
 
+	"oapsa/internal/prog"
 	"oapsa/internal/walk"
 )
 
@@ -133,80 +137,131 @@ func runC11R3R4(c *Ctx, r3, r4 string) {
 	rule = r4
 	mk := c.Fn(rule, "pkg/cookies.MakeCookieFromOptions")
 	if mk != nil {
+		// Every cookie family (ticket, CSRF, cookie store) is described by its receiver type. Within one family all
+		// MakeCookieFromOptions call sites — setter and deleter, however they are split into helper methods — must use
+		// the same options expression and the same name expression, both written relative to the receiver, so that
+		// field renames and inlined/extracted helper methods do not matter.
 		type site struct {
 			name, opts string
+			fn         *ssa.Function
 			in         ssa.Instruction
 		}
-		describe := func(v ssa.Value) string {
+		var rel func(v ssa.Value, recv *ssa.Parameter, depth int) string
+		rel = func(v ssa.Value, recv *ssa.Parameter, depth int) string {
+			if depth > 6 {
+				return "?deep"
+			}
 			v = unwrap0(v)
 			switch x := v.(type) {
-			case *ssa.Call:
-				if sc := x.Call.StaticCallee(); sc != nil {
-					return "call:" + sc.Name()
-				}
 			case *ssa.Parameter:
-				return "param"
-			case *ssa.UnOp:
-				if fa, ok := x.X.(*ssa.FieldAddr); ok {
-					f := walk.FieldOf(fa.X.Type(), fa.Field)
-					inner := ""
-					if ld, ok := fa.X.(*ssa.UnOp); ok {
-						if fa2, ok := ld.X.(*ssa.FieldAddr); ok {
-							inner = walk.FieldOf(fa2.X.Type(), fa2.Field).Name() + "."
-						}
+				if x == recv {
+					return "recv"
+				}
+				for i, q := range x.Parent().Params {
+					if q == x {
+						return sprintf("param#%d", i)
 					}
-					return "field:" + inner + f.Name()
+				}
+			case *ssa.UnOp:
+				if fa, ok := x.X.(*ssa.FieldAddr); ok && x.Op == token.MUL {
+					return rel(fa.X, recv, depth+1) + "." + walk.FieldOf(fa.X.Type(), fa.Field).Name()
+				}
+			case *ssa.Call:
+				if sc := x.Call.StaticCallee(); sc != nil && len(x.Call.Args) > 0 {
+					return "call:" + sc.Name() + "(" + rel(x.Call.Args[0], recv, depth+1) + ")"
+				}
+			case *ssa.Const:
+				return "const"
+			}
+			return "?" + v.Name()
+		}
+		families := map[string][]site{}
+		for _, cs := range c.callersOf(mk) {
+			fn := cs.Parent()
+			rt := ""
+			var recv *ssa.Parameter
+			if r := fn.Signature.Recv(); r != nil && len(fn.Params) > 0 {
+				t := r.Type()
+				if pt, ok := t.(*types.Pointer); ok {
+					t = pt.Elem()
+				}
+				rt = types.TypeString(t, func(p *types.Package) string { return prog.Short(p.Path()) })
+				recv = fn.Params[0]
+			}
+			a := cs.Common().Args
+			families[rt] = append(families[rt], site{rel(a[1], recv, 0), rel(a[3], recv, 0), fn, cs})
+		}
+		want := map[string]string{
+			"pkg/sessions/persistence.ticket":  "ticket",
+			"pkg/cookies.csrf":                 "csrf",
+			"pkg/sessions/cookie.SessionStore": "cookie-store",
+		}
+		// a family whose cookies are built outside methods of its type (rt == "") cannot be compared
+		for _, st := range families[""] {
+			c.R.Unknown(rule, "family|"+fnKey(st.fn), c.pos(st.in), "a cookie is built with MakeCookieFromOptions outside a method of a cookie-owning type: setter/deleter agreement is not decided for it")
+		}
+		for rt, fam := range want {
+			sites := families[rt]
+			key := "family|" + fam
+			if len(sites) == 0 {
+				c.R.Unknown(rule, key, "-", "no method of "+rt+" builds a cookie with MakeCookieFromOptions")
+				continue
+			}
+			ref := sites[0]
+			agree := true
+			for _, st := range sites {
+				if st.opts != ref.opts || strings.HasPrefix(st.opts, "?") {
+					agree = false
+				}
+				if fam != "cookie-store" && (st.name != ref.name || strings.HasPrefix(st.name, "?")) {
+					agree = false
 				}
 			}
-			return "other:" + v.String()
-		}
-		sites := map[string]site{}
-		for _, cs := range c.callersOf(mk) {
-			a := cs.Common().Args
-			sites[fnKey(cs.Parent())] = site{describe(a[1]), describe(a[3]), cs}
-		}
-		pairs := [][2]string{
-			{"(*pkg/sessions/persistence.ticket).makeCookie", "(*pkg/sessions/persistence.ticket).clearCookie"},
-			{"(*pkg/cookies.csrf).SetCookie", "(*pkg/cookies.csrf).ClearCookie"},
-		}
-		for _, pr := range pairs {
-			s1, ok1 := sites[pr[0]]
-			s2, ok2 := sites[pr[1]]
-			key := "pair|" + pr[0] + "~" + pr[1]
 			switch {
-			case !ok1 || !ok2:
-				c.R.Unknown(rule, key, "-", "setter or deleter no longer builds its cookie with MakeCookieFromOptions directly")
-			case s1.name == s2.name && s1.opts == s2.opts && !strings.HasPrefix(s1.name, "other"):
-				c.ok(rule, key, s2.in, "both use name="+s1.name+" opts="+s1.opts)
+			case !agree:
+				var d []string
+				for _, st := range sites {
+					d = append(d, fnKey(st.fn)+": name="+st.name+" opts="+st.opts)
+				}
+				sort.Strings(d)
+				c.R.Bad(rule, key, c.pos(ref.in), "setters and deleters of this cookie family do not build their cookies from the same name and options expressions ("+strings.Join(d, "; ")+"): the browser keeps a cookie the deletion does not match", nil, nil)
+			case fam == "ticket" && ref.name != ref.opts+".Name":
+				c.R.Bad(rule, key, c.pos(ref.in), "the ticket cookie's name ("+ref.name+") is not the Name of the options it is built with ("+ref.opts+")", nil, nil)
+			case fam == "cookie-store":
+				// one options expression for all sites; names: the wrapper's parameter, the configured name, or a presented cookie's name
+				okNames := true
+				for _, st := range sites {
+					if !(strings.HasPrefix(st.name, "param#") || st.name == ref.opts+".Name" || strings.HasSuffix(st.name, ".Name")) {
+						okNames = false
+					}
+				}
+				if okNames {
+					c.ok(rule, key, ref.in, sprintf("%d site(s), all with opts=%s", len(sites), ref.opts))
+				} else {
+					c.R.Bad(rule, key, c.pos(ref.in), "the cookie store builds a cookie under a name that is neither the configured nor a presented cookie name", nil, nil)
+				}
 			default:
-				c.bad(rule, key, s2.in, sprintf("deletion uses name=%s opts=%s but the setter uses name=%s opts=%s: the browser keeps the cookie", s2.name, s2.opts, s1.name, s1.opts), nil, 0)
+				c.ok(rule, key, ref.in, sprintf("%d site(s), all with name=%s opts=%s", len(sites), ref.name, ref.opts))
 			}
 		}
-		// cookie store: single wrapper with the store's options; setter passes Cookie.Name
-		if s, ok := sites["(*pkg/sessions/cookie.SessionStore).makeCookie"]; ok && s.name == "param" && s.opts == "field:Cookie" {
-			c.ok(rule, "cookie-store-wrapper", s.in, "makeCookie(req, name, value, s.Cookie, expiration) used by both Save and Clear")
-		} else {
-			c.bad(rule, "cookie-store-wrapper", mk.Blocks[0].Instrs[0], "cookie store no longer builds all its cookies through one wrapper with s.Cookie options", nil, 0)
-		}
-		msc := c.Fn(rule, "(*pkg/sessions/cookie.SessionStore).makeSessionCookie")
-		if msc != nil && makeCookie != nil && nameOptF != nil {
+		// the session cookie is set under Cookie.Name, which the clearing pattern is built from
+		if makeCookie != nil && nameOptF != nil {
 			okName := false
 			for _, cs := range c.callersOf(makeCookie) {
-				if cs.Parent() == msc && isFieldLoadOf(cs.Common().Args[2], nameOptF) {
+				if isFieldLoadOf(cs.Common().Args[2], nameOptF) {
+					okName = true
+				}
+			}
+			for _, st := range families["pkg/sessions/cookie.SessionStore"] {
+				if strings.HasSuffix(st.name, "."+nameOptF.Name()) && strings.HasPrefix(st.name, "recv.") {
 					okName = true
 				}
 			}
 			if okName {
-				c.ok(rule, "cookie-store-set-name", msc.Blocks[0].Instrs[0], "session cookie is set under Cookie.Name, which the clearing pattern is built from")
+				c.R.OK(rule, "cookie-store-set-name", "-", "session cookie is set under Cookie.Name, which the clearing pattern is built from")
 			} else {
-				c.bad(rule, "cookie-store-set-name", msc.Blocks[0].Instrs[0], "session cookie is not set under Cookie.Name", nil, 0)
+				c.R.Bad(rule, "cookie-store-set-name", c.P.Pos(mk.Pos()), "session cookie is not set under Cookie.Name", nil, nil)
 			}
-		}
-		// ticket name is Cookie.Name of the options the ticket was decoded with
-		if s, ok := sites["(*pkg/sessions/persistence.ticket).clearCookie"]; ok && s.name == "field:options.Name" && s.opts == "field:options" {
-			c.ok(rule, "ticket-name", s.in, "ticket cookie deleted under t.options.Name with t.options")
-		} else if ok {
-			c.bad(rule, "ticket-name", s.in, "ticket cookie is not deleted under t.options.Name with t.options", nil, 0)
 		}
 	}
 }
